@@ -109,6 +109,9 @@ func (g *Gen) Dress(d string) string {
 		if m == 0 {
 			m = 600
 		}
+		if m < 120 {
+			m = 120
+		}
 		return t + strings.Repeat(g.letters(1), g.rng(100, m))
 	case "empty":
 		return ""
